@@ -415,9 +415,9 @@ theorem c01_print_outside_try_raises_witness :
 
 A non-silent engine (the constructor default, the one `BioAgent` builds) writes a progress line to `sys.stdout`.  The
 stream is the caller's: closed, a strict ASCII / latin-1 / cp1252 console that cannot encode the line's emoji, a pipe
-whose k-th write fails.  "It never raises to the caller" includes that write. -/
+that fails the k-th call writing to it.  "It never raises to the caller" includes that write. -/
 
-/-- `metabolize` on ANY console state (kind of stream, number of writes it has seen) returns a result — never raises —
+/-- `metabolize` on ANY console state (kind of stream, number of calls that have written to it) returns a result — never raises —
     for every configuration, input, pathway, table content and environment, when the print and the dispatch sit inside
     the handler. -/
 theorem c01_total_on_every_console (T : Tables) (env : Env) (cfg : Cfg) (hp : cfg.printInTry = true)
@@ -428,7 +428,7 @@ theorem c01_total_on_every_console (T : Tables) (env : Env) (cfg : Cfg) (hp : cf
   exact c01_total T env cfg hp hd latched d _ forced
 
 /-- The current source (E1 facts): in a history of calls of any length on one engine and one console stream — the
-    stream's write count running through the history, so that "the k-th write fails" lands on whichever call it lands —
+    stream's count of writing calls running through the history: guard refusals and silent engines do not count —
     no call raises. -/
 theorem c01_history_on_every_console_never_raises (T : Tables) (env : Env) (cfg : Cfg)
     (hp : cfg.printInTry = Gen.printInTry) (hd : cfg.dispatchInTry = Gen.dispatchInTry) (detect : Inp → Pathway)
@@ -447,10 +447,11 @@ theorem c01_history_on_every_console_never_raises (T : Tables) (env : Env) (cfg 
       rw [h, e]; exact fun h => nomatch h
     | inr h => exact ih _ o h
 
-/-- non-vacuity: the stream's third write fails — exactly the second of three calls is a (counted) failure result -/
+/-- non-vacuity: the stream fails the second call writing to it — exactly the second of three calls is a (counted)
+    failure result -/
 example : historyOn ⟨[], [], [], [], []⟩ ⟨fun _ => .h 0, fun _ _ => .error "", fun _ => .error "", fun _ _ _ => .error "",
         fun _ _ _ => .error ""⟩
-    ⟨10000, false, false, [], none, true, true, true⟩ (fun _ => .glycolysis) (.failAt 3) 0
+    ⟨10000, false, false, [], none, true, true, true⟩ (fun _ => .glycolysis) (.failAt 2) 0
     [(false, ⟨1, some (.const (.h 1)), none, false⟩, none), (false, ⟨1, some (.const (.h 1)), none, false⟩, none),
       (false, ⟨1, some (.const (.h 1)), none, false⟩, none)]
     = [.result true (some (.h 1)) false (some .glycolysis), .result false none true (some .glycolysis),
@@ -458,8 +459,7 @@ example : historyOn ⟨[], [], [], [], []⟩ ⟨fun _ => .h 0, fun _ _ => .error
   rfl
 
 /-- A progress line outside the handler is expressible and raises on a console that refuses the write — no odd
-    character in the text needed: a closed stream, or a stream whose second write (the newline of the first `print`)
-    fails. -/
+    character in the text needed: a closed stream, or a stream that fails the first call writing to it. -/
 theorem c01_console_refusal_outside_try_raises_witness :
     (metabolizeOn ⟨[], [], [], [], []⟩ ⟨fun _ => .h 0, fun _ _ => .error "", fun _ => .error "", fun _ _ _ => .error "",
         fun _ _ _ => .error ""⟩
@@ -468,7 +468,7 @@ theorem c01_console_refusal_outside_try_raises_witness :
     ∧ (metabolizeOn ⟨[], [], [], [], []⟩ ⟨fun _ => .h 0, fun _ _ => .error "", fun _ => .error "", fun _ _ _ => .error "",
         fun _ _ _ => .error ""⟩
         ⟨10000, false, false, [], none, false, true, true⟩ false .glycolysis
-        (.failAt 2) 0 ⟨1, some (.const (.h 1)), none, false⟩ none).1.2 = .raised :=
+        (.failAt 1) 0 ⟨1, some (.const (.h 1)), none, false⟩ none).1.2 = .raised :=
   ⟨rfl, rfl⟩
 
 /-! ### … through the result containers (what the CALLER sees: `Model/MitoBox.lean`)
